@@ -8,10 +8,12 @@ from vf.runner import CaseTimeout
 from vf.spaces import strings_upto
 
 from genlm.grammar.cfglm import EOS, BoolCFGLM
+from genlm.grammar.cfg import CFG
 from genlm.grammar.semiring import Boolean, Float
 
 ID = "C01"
 LEVEL = "model_checking"
+CASE_HARD_TIMEOUT = 900  # the scale case (34k rules) takes ~10 s with Earley and ~1 min through CNF and CKY
 TIER = "quick"
 ALGS = ("earley", "cky")
 
@@ -47,6 +49,10 @@ def plan(tier, seed):
     cases += [dict(c, mode="mask", ints=True) for c in bi]
     nstates += si
     ntrans += ti
+    # one SCALE input: K tokens and all K*K two-token strings (internal tables of > 2^16 entries; real vocabularies are far larger)
+    cases.insert(0, {"name": "scale", "mode": "scale", "K": 185, "rules": [], "algs": ["earley"] if tier != "thorough" else ["earley", "cky"]})
+    nstates += 1
+    ntrans += 185 * 185
     return {
         "cases": cases,
         "states": nstates,
@@ -55,9 +61,9 @@ def plan(tier, seed):
         "rule": (
             f"E1: BFS over cfg.add(rule) sequences to depth {p['depth']} (42-rule alphabet, multisets, canonical up to a<->b) + sharp grammars; "
             f"in every state every context over V+{{EOS}} of length <= {p['ctxlen']} (viable, non-viable, containing EOS) x back-ends earley, cky "
-            "(Boolean weights; a Float-weighted copy exercises the map_values path): the key set of p_next(ctx) must equal "
+            "(Boolean weights; a Float-weighted copy exercises the map_values path; for grammars of <= 2 rules and the sharp ones every single rule in turn gets weight -1 / 0, which the documented conversion maps to False = rule absent): the key set of p_next(ctx) must equal "
             "{t : ctx.t is a prefix of a string of L(G).EOS} decided by the independent set-based viability oracle R3; lm(x.EOS) must equal membership. "
-            "perm = every rule order x 6 renamings (one of them gives every OCCURRENCE of a nonterminal a new equal-but-not-identical object). non-trivial = the oracle offers at least one token for at least one context"
+            "scale = one grammar with 185 tokens and all 185^2 two-token strings (tables > 2^16 entries), 7 contexts; perm = every rule order x 6 renamings (one of them gives every OCCURRENCE of a nonterminal a new equal-but-not-identical object). non-trivial = the oracle offers at least one token for at least one context"
         ),
         "bounds": p,
         "assumptions": ["one PYTHONHASHSEED per run; rule order and names are enumerated for the small states"],
@@ -149,7 +155,29 @@ def run_mask(case):
                 evals += 1
                 if have != want:
                     fails.append(_fail(f"{alg}: lm(x.EOS) == membership", dict(inp0, alg=alg, weights=wname, x=list(x)), have, want))
-    return {"evals": evals, "nontrivial": int(nonempty > 0), "fails": fails, "counters": {"executions": evals, "contexts_with_nonempty_mask": nonempty}}
+    # the documented weight conversion: "positive weights become True and zero/negative weights become
+    # False" - a real-weighted grammar whose k-th rule has a negative (or zero) weight behaves like the
+    # grammar without that rule
+    signed = 0
+    if 1 <= n <= 2 or (case["name"].startswith("sharp") and 1 <= n <= 4):
+        for k in range(n):
+            for wk in (-1.0, 0.0):
+                W = [0.5] * n
+                W[k] = wk
+                rest = [r for i, r in enumerate(rules) if i != k]
+                off2, _ = _oracle(rest, V)
+                for alg in ALGS:
+                    try:
+                        lm = BoolCFGLM(gram.build(rules, Float, W, V=V), alg=alg)
+                    except CaseTimeout:
+                        raise
+                    except Exception as e:  # noqa: BLE001
+                        fails.append(_fail(f"{alg}: construct", dict(inp0, alg=alg, weights=W), f"EXC {type(e).__name__}: {e}", "language model"))
+                        continue
+                    e, ne = _check_lm(lm, off2, V2, min(p["ctxlen"], 2), dict(inp0, weights=W), alg, fails, " (rule with non-positive weight is absent)")
+                    evals += e
+                    signed += 1
+    return {"evals": evals, "nontrivial": int(nonempty > 0), "fails": fails, "counters": {"executions": evals, "contexts_with_nonempty_mask": nonempty, "nonpositive_weight_configs": signed}}
 
 
 def run_perm(case):
@@ -178,5 +206,38 @@ def run_perm(case):
     return {"evals": evals, "nontrivial": int(nonempty > 0), "fails": fails, "counters": {"executions": evals, "configurations": evals}}
 
 
+def run_scale(case):
+    """A grammar far beyond the BFS bound in SIZE only: vocabulary t0..t{K-1}, language = all two-token strings."""
+    K = case["K"]
+    toks = [f"t{i}" for i in range(K)]
+    V = set(toks)
+    g = CFG(Boolean, "S", set(V))
+    for x in toks:
+        for y in toks:
+            g.add(Boolean.one, "S", x, y)
+    fails = []
+    evals = 0
+    for alg in case["algs"]:
+        inp0 = {"grammar": f"S -> ti tj for all i, j < {K}", "alg": alg}
+        try:
+            lm = BoolCFGLM(g, alg=alg)
+        except CaseTimeout:
+            raise
+        except Exception as e:  # noqa: BLE001
+            fails.append(_fail(f"{alg}: construct", inp0, f"EXC {type(e).__name__}: {e}", "language model"))
+            continue
+        for ctx, want in (((), V), ((toks[0],), V), ((toks[K - 1],), V), ((toks[0], toks[1]), {EOS}), ((toks[K - 1], toks[K - 1]), {EOS}), ((toks[0], toks[1], toks[2]), set()), ((toks[0], toks[1], EOS), set())):
+            try:
+                have = set(lm.p_next(ctx).keys())
+            except CaseTimeout:
+                raise
+            except Exception as e:  # noqa: BLE001
+                have = f"EXC {type(e).__name__}: {e}"
+            evals += 1
+            if have != want:
+                fails.append(_fail(f"{alg}: mask == viable continuations (large vocabulary)", dict(inp0, context=list(ctx)), have if isinstance(have, str) else f"{len(have)} tokens: {sorted(have)[:5]}", f"{len(want)} tokens: {sorted(want)[:5]}"))
+    return {"evals": evals, "nontrivial": 1, "fails": fails, "counters": {"executions": evals, "scale_rules": K * K}}
+
+
 def run_case(case):
-    return {"mask": run_mask, "perm": run_perm}[case["mode"]](case)
+    return {"mask": run_mask, "perm": run_perm, "scale": run_scale}[case["mode"]](case)
